@@ -72,6 +72,23 @@ class Nested(nn.Module):
         return self.head(self.act(self.fc(x)))
 
 
+class Gated(nn.Module):
+    """A registered layer in the MIDDLE of the registration order whose
+    gradient is exactly zero (not None): an auxiliary branch gated off."""
+
+    def __init__(self):
+        super().__init__()
+        self.l1 = nn.Linear(3, 3)
+        self.aux = nn.Linear(3, 3)
+        self.l2 = nn.Linear(3, 2, bias=False)
+        self.act = nn.Tanh()
+
+    def forward(self, x):
+        h = self.act(self.l1(x))
+        h = h + 0.0 * self.aux(h)
+        return self.l2(h)
+
+
 def build_model(name, dtype=torch.float32, seed=0):
     if name == 'mlp3':
         m = nn.Sequential(nn.Linear(3, 4), nn.Tanh(), nn.Linear(4, 2),
@@ -101,6 +118,8 @@ def build_model(name, dtype=torch.float32, seed=0):
     elif name == 'wide':    # rank-deficient batches, indefinite bf16 factors
         m = nn.Sequential(nn.Linear(12, 10), nn.Tanh(),
                           nn.Linear(10, 8, bias=False))
+    elif name == 'gated':
+        m = Gated()
     elif name == 'mixed':   # registered + unregistered parameters
         m = nn.Sequential(nn.Linear(3, 4), nn.LayerNorm(4), nn.Tanh(),
                           nn.Linear(4, 2))
@@ -119,7 +138,7 @@ def input_shape(name, batch):
         'mlp3': (batch, 3), 'mlp2': (batch, 3), 'lin1': (batch, 3),
         'sq': (batch, 2), 'conv': (batch, 1, 3, 3),
         'convsq': (batch, 2, 2, 3), 'seq3d': (batch, 2, 3),
-        'mixed': (batch, 3), 'wide': (batch, 12), 'nbfirst': (batch, 3), 'nested': (batch, 3),
+        'mixed': (batch, 3), 'wide': (batch, 12), 'nbfirst': (batch, 3), 'nested': (batch, 3), 'gated': (batch, 3),
     }[name]
 
 
